@@ -18,7 +18,7 @@ LEVEL_NOTE = ("Trusted: the documented line formats ('Missing reference in file 
               "files): N', 'Num. inserted reference(s): N'); an unrecognisable report is a harness error, not a violation.")
 RULE = ("case = generated tree (statement lines decorated with tabs / multi-byte / same-line prefixes, CRLF variants) or 1-3 real "
         "corpus files; 2 runs (check, edit). Non-trivial = at least one missing reference; distinct = case index.")
-PROBES = ["unreadable_neighbour", "multibyte_before_stmt", "tab_indent", "crlf_file", "corpus_world", "no_missing_refs", "structured", "multi_file"]
+PROBES = ["tmpdir_missing_edit_refused", "unreadable_neighbour", "multibyte_before_stmt", "tab_indent", "crlf_file", "corpus_world", "no_missing_refs", "structured", "multi_file"]
 ASSUMPTIONS = ["all in-scope files are readable", "check and edit see the same enumeration order (same plan seed)"]
 DEADLINE = {"quick": 200, "thorough": 3000}
 
@@ -67,6 +67,12 @@ def gen(rng):
         tags.add("structured")
     knobs = {"threads": rng.randrange(1, 5), "config_arg": rng.choice(["rel", "abs", "dotrel"]), "cwd": "proj"}
     knobs = scen.env_knobs(rng, knobs)
+    if rng.random() < 0.04:
+        # TMPDIR names a directory that does not exist: the edit cannot put anything in place and has to say so; if it claims
+        # success all the same, its insertions must still be what --check announced
+        knobs["tmpdir"] = "no_such_tmpdir"
+        knobs.pop("tmpdir_make", None)
+        tags.add("tmpdir_missing")
     plan = {"seed": rng.getrandbits(48) | 1, "perm": True, "faults": []}
     return wm, knobs, plan, tags
 
@@ -112,6 +118,11 @@ def evaluate(wm, knobs, plan, ctx):
         for off, _tok, _n in ins:
             expected[(p,) + line_col(b, off)] += 1
             ntok += 1
+    if knobs.get("tmpdir") == "no_such_tmpdir" and eres.status != 0:
+        ctx.probes["tmpdir_missing_edit_refused"] += 1
+        if ntok:
+            V("edit-failed-but-inserted", "edit exited %d with TMPDIR missing and still changed %d places" % (eres.status, ntok))
+        return viols, 0
     rep = core.parse_report(cres.stdout + "\n" + cres.stderr)
     erep = core.parse_report(eres.stdout + "\n" + eres.stderr)
     if rep["total"] is None:
@@ -148,7 +159,7 @@ def evaluate(wm, knobs, plan, ctx):
         V("edit-count-mismatch", "edit printed %d inserted, %d tokens in the tree" % (erep["inserted"], ntok))
     if erep["inserted"] is None and ntok > 0:
         V("edit-count-mismatch", "edit inserted %d tokens but printed no count" % ntok)
-    if eres.status != 0:
+    if eres.status != 0 and knobs.get("tmpdir") != "no_such_tmpdir":
         V("edit-failed", "fault-free edit run exited %d" % eres.status)
     return viols, ntok
 
